@@ -46,6 +46,16 @@ CHECKS = {
             "All histories of depth 3 (quick) / 4 + extended alphabet (thorough) over 15 operations (calls to 3 contracts from 4 accounts, momentum with and without the producer's auto-receive phase so inboxes grow, user receives in and out of order, repeated receive, receive by the wrong account, competing higher-plasma receives replacing pooled ones, a hand-generated contract receive for inbox entry #2 while #1 is pending, restart) from 2 base states. After every transition, at the confirmed ledger and the pool view: every send has at most one receiving block and it is made by the addressee; every contract's receive sequence equals a prefix of the queue recomputed from the confirmed chain (momentum order, content order, block before descendants).",
             "Live-network receiver-enforcement regime; reorganisation is exercised by C06's differential oracle rather than here.",
             "5/C04"),
+    "C10": ("model_checking",
+            "bounded-history explicit-state exploration per contract family on a real node with an independent ledger auditor (liabilities and entitlements recomputed from the ledger) evaluated after every transition",
+            "Per family (stake; plasma fusions; sentinel collateral + QSR deposit; pillar QSR deposit) all histories of depth 3 (quick) / 4 (thorough) over 6-10 operations (deposits of two accounts and durations, withdrawal attempts by owner / stranger / beneficiary, with known and unknown ids, before and after maturity, repeated; reward collection; momentums as time) from 2 base states each (genesis; entries existing: one mature, one not), with lock periods shrunk to 2-3 momentums. After every transition, at the confirmed ledger and the pool view, an auditor replays each contract's receive blocks from the ledger alone and checks: ledger-derived liabilities == liabilities in contract storage <= contract balance (per contract and token); every payout matched by an entitlement (entitled party, not before the lock allows, not twice, exact amount and recipient); a matured withdrawal by the entitled party pays out.",
+            "HTLC, liquidity stake and bridge unwrap (need activated sporks) and pillar registration/revocation are not covered; lock constants shrunk (logic is parametric in them).",
+            "5/C10"),
+    "C15": ("exploration",
+            "exhaustive enumeration of protocol sessions over a 304-letter message alphabet on the real ProtocolManager (child processes), of every single-byte corruption/truncation/reordering of rlpx frames, and of every corruption of discovery packets",
+            "(a) all sessions of <=2 messages (quick; thorough: <=3 over a reduced 75-letter alphabet) over 304 letters (9 message codes + unknown codes x empty / wrong RLP kind / truncated / boundary parameters, forged momentums and blocks, oversize messages) before and after the handshake on chains of 600 and 5 momentums, plus scripted downloader/fetcher dialogues, on the real ProtocolManager over p2p.MsgPipe in re-exec'd child processes: no panic (recovered panics are confirmed by a raw child dying), sentinel request answered by the same and a witness peer after every message, replies <=512 hashes / <=128 momentums / <=10 MiB, oversize dropped unread. (b) 3 real rlpx frames: every byte x {^0xFF,+1} (thorough all 255 masks), every truncation, all sequences of <=4 frames, crafted valid-MAC frames: error or exactly the sent message. (c) real discovery udp/Table on an in-memory conn: every single-byte corruption and truncation of 4 packet kinds (raw and re-hashed), expiry/version/oversize variants, bonded-sender flow: rejected, no panic, no datagram to an unverified sender.",
+            "Grammar-bounded alphabet, not all byte strings; p2p.Server/rlpx handshake not in the session loop; only the 400 ms / 100 ms timer paths of fetcher/downloader are exercised.",
+            "5/C15"),
     "C18": ("exploration",
             "exhaustive product enumeration of paging arguments for every paged RPC method against ground truth from the stores + JSON round trips of all blocks + grammar-enumerated JSON-RPC requests against an in-process server",
             "29 paged methods (302 method/argument instances) on 4 real chains: full product of 9+ page indices x 7+ page sizes (incl. limit, limit+1, 2^16..2^32-1 and the first indices whose offset needs >32 bits), heights/counts up to 2^64-1; concatenation of all pages of every legal size must list each element exactly once in store order with correct totals, no page above the limit, out-of-range pages empty, no panic. Every block/momentum round-trips through nom and rpc JSON types to identical protobuf bytes and hash (plus 7 synthetic variants each). ~2300 (quick) / ~7000 (thorough) JSON-RPC requests (wrong types at every parameter position, missing/extra/null params, huge numbers, deep nesting, 5 MiB strings, batches, invalid UTF-8, unknown methods, every truncation of valid requests) over ServeHTTP and ServeCodec: always an error response or a correct result, a sentinel call still answered, process (child) survives.",
